@@ -132,3 +132,163 @@ Proof.
   - pose proof (Htopn a Ha Hne). lra.
 Qed.
 End Geo.
+
+(* ============================================================================================== *)
+(* 2. the colouring on a realised profile                                                          *)
+(* ============================================================================================== *)
+Lemma before_closer x p r a b : vote_realised x p r -> In a r -> In b r ->
+  (before r a b = true <-> closer x p a b).
+Proof.
+  intros Hr Ha Hb. apply vote_realised_SS in Hr. split.
+  - intros H. rewrite (before_prefers r a b Ha) in H. exact (prefers_closer _ r a b Hr Hb H).
+  - intros Hc. destruct (before r a b) eqn:E; [reflexivity|]. exfalso. unfold closer in Hc.
+    destruct (N.eq_dec a b) as [->|Hne]; [lra|].
+    pose proof (before_total r a b Ha Hb Hne E) as E'. rewrite (before_prefers r b a Hb) in E'.
+    pose proof (prefers_closer _ r b a Hr Ha E') as Hc'. unfold closer in Hc'. lra.
+Qed.
+
+Lemma before_head c t d : d <> c -> before (c :: t) c d = true.
+Proof.
+  intros Hne. unfold before. cbn [aidx]. rewrite N.eqb_refl.
+  destruct (N.eqb c d) eqn:E; [apply N.eqb_eq in E; congruence|]. reflexivity.
+Qed.
+
+Section Link.
+Variable x : N -> Q.
+Variables p1 pn : Q.
+Variables cminus cplus : N.
+Variables v1t vnt : list N.
+Variable alts : list N.
+Let v1 := cminus :: v1t.
+Let vn := cplus :: vnt.
+Hypothesis Hlt : p1 < pn.
+Hypothesis Hnd : NoDup alts.
+Hypothesis P1 : Permutation alts v1.
+Hypothesis Pn : Permutation alts vn.
+Hypothesis R1 : vote_realised x p1 v1.
+Hypothesis Rn : vote_realised x pn vn.
+
+Lemma in1 c : In c alts <-> In c v1.
+Proof. split; apply Permutation_in; [exact P1|apply Permutation_sym; exact P1]. Qed.
+Lemma inn c : In c alts <-> In c vn.
+Proof. split; apply Permutation_in; [exact Pn|apply Permutation_sym; exact Pn]. Qed.
+
+Lemma Lcm : In cminus alts. Proof. apply in1. now left. Qed.
+Lemma Lcp : In cplus alts. Proof. apply inn. now left. Qed.
+
+Lemma Ldist a b : In a alts -> In b alts -> a <> b -> ~ x a == x b.
+Proof. intros Ha Hb. apply (realised_distinct x p1 v1 a b R1); now apply in1. Qed.
+
+Lemma Ltop1 d : In d alts -> d <> cminus -> qdist p1 (x cminus) < qdist p1 (x d).
+Proof.
+  intros Hd Hne. apply (before_closer x p1 v1 cminus d R1); [now left|now apply in1|]. now apply before_head.
+Qed.
+Lemma Ltopn d : In d alts -> d <> cplus -> qdist pn (x cplus) < qdist pn (x d).
+Proof.
+  intros Hd Hne. apply (before_closer x pn vn cplus d Rn); [now left|now apply inn|]. now apply before_head.
+Qed.
+
+Let red := red0 x p1 pn cminus cplus.
+Let g0 := gamma0 v1 vn cminus cplus.
+
+Lemma g0_red c : In c alts -> (g0 c = Red <-> red c).
+Proof.
+  intros Hc. unfold g0, gamma0, red, red0.
+  pose proof (before_closer x p1 v1 c cplus R1 (proj1 (in1 c) Hc) (proj1 (in1 cplus) Lcp)) as B1.
+  pose proof (before_closer x pn vn c cminus Rn (proj1 (inn c) Hc) (proj1 (inn cminus) Lcm)) as Bn.
+  unfold closer in B1, Bn. split.
+  - intros H. destruct (before v1 c cplus && before vn c cminus) eqn:E.
+    + apply andb_true_iff in E. left. split; [now apply B1|now apply Bn].
+    + cbn [orb] in H. destruct (N.eqb c cminus) eqn:E1; [apply N.eqb_eq in E1; right; now left|].
+      destruct (N.eqb c cplus) eqn:E2; [apply N.eqb_eq in E2; right; now right|]. discriminate.
+  - intros [(H1 & Hn)|[E|E]]; [|subst c|subst c].
+    + apply B1 in H1. apply Bn in Hn. now rewrite H1, Hn.
+    + now rewrite N.eqb_refl, orb_true_r.
+    + now rewrite N.eqb_refl, !orb_true_r.
+Qed.
+
+Lemma lrole_link c : In c alts -> lrole v1 vn (perm2 alts) c -> lrole_pos x p1 pn alts c.
+Proof.
+  intros Hc (b & Hin & Hs). apply in_perm2_iff in Hin. destruct Hin as (_ & Hb & _).
+  unfold sw, swapped in Hs. cbn [fst snd] in Hs. apply andb_true_iff in Hs. destruct Hs as (S1 & S2).
+  exists b. split; [assumption|]. split.
+  - apply (before_closer x p1 v1 c b R1); [now apply in1|now apply in1|assumption].
+  - apply (before_closer x pn vn b c Rn); [now apply inn|now apply inn|assumption].
+Qed.
+Lemma rrole_link c : In c alts -> rrole v1 vn (perm2 alts) c -> rrole_pos x p1 pn alts c.
+Proof.
+  intros Hc (a & Hin & Hs). apply in_perm2_iff in Hin. destruct Hin as (Ha & _ & _).
+  unfold sw, swapped in Hs. cbn [fst snd] in Hs. apply andb_true_iff in Hs. destruct Hs as (S1 & S2).
+  exists a. split; [assumption|]. split.
+  - apply (before_closer x p1 v1 a c R1); [now apply in1|now apply in1|assumption].
+  - apply (before_closer x pn vn c a Rn); [now apply inn|now apply inn|assumption].
+Qed.
+
+Lemma role_in_alts_l c : lrole v1 vn (perm2 alts) c -> In c alts.
+Proof. intros (b & Hin & _). apply in_perm2_iff in Hin. tauto. Qed.
+Lemma role_in_alts_r c : rrole v1 vn (perm2 alts) c -> In c alts.
+Proof. intros (b & Hin & _). apply in_perm2_iff in Hin. tauto. Qed.
+
+(* (i) the colouring loop cannot take its failure exit *)
+Theorem colouring_succeeds : exists g, colour_loop v1 vn alts g0 = Some g /\ Inv v1 vn g0 (perm2 alts) g.
+Proof.
+  pose proof (colour_loop_spec v1 vn alts g0 (gamma0_range _ _ _ _)) as H.
+  destruct (colour_loop v1 vn alts g0) as [g|]; [exists g; split; [reflexivity|apply H]|]. exfalso.
+  destruct H as (c & Hg & Hl & Hr). pose proof (role_in_alts_l c Hl) as Hc.
+  assert (Hred : red c).
+  { apply (both_roles_red x p1 pn cminus cplus alts Hlt Ldist Lcm Lcp Ltop1 Ltopn c Hc);
+      [now apply lrole_link|now apply rrole_link]. }
+  apply (g0_red c Hc) in Hred. congruence.
+Qed.
+
+(* (ii) left_of is the left-to-right order of the positions *)
+Section AxisOrder.
+Variable g : gamma.
+Hypothesis HI : Inv v1 vn g0 (perm2 alts) g.
+
+Lemma colour_facts c : In c alts ->
+  match g c with
+  | Red => red c
+  | Green => x c < p1 /\ ~ red c
+  | Blue => pn < x c /\ ~ red c
+  | Grey => True
+  end.
+Proof.
+  intros Hc. destruct HI as (IR & IG & IB & _ & _). destruct (g c) eqn:E.
+  - apply (g0_red c Hc), IR, E.
+  - assert (Hnr : ~ red c) by (intros Hr; apply (g0_red c Hc), IR in Hr; congruence).
+    split; [|assumption].
+    apply (blue_right x p1 pn cminus cplus alts Hlt Ldist Lcm Lcp Ltop1 Ltopn c Hc); [|assumption].
+    apply rrole_link; [assumption|]. now apply IB.
+  - assert (Hnr : ~ red c) by (intros Hr; apply (g0_red c Hc), IR in Hr; congruence).
+    split; [|assumption].
+    apply (green_left x p1 pn cminus cplus alts Hlt Ldist Lcm Lcp Ltop1 Ltopn c Hc); [|assumption].
+    apply lrole_link; [assumption|]. now apply IG.
+  - exact I.
+Qed.
+
+Theorem left_of_positions a b : In a alts -> In b alts -> a <> b -> left_of v1 vn g a b = true -> x a < x b.
+Proof.
+  intros Ha Hb Hne. pose proof (colour_facts a Ha) as Fa. pose proof (colour_facts b Hb) as Fb. unfold left_of.
+  destruct (g a) eqn:Ea, (g b) eqn:Eb; try discriminate; intros H.
+  - (* red, red *)
+    apply (red_red x p1 pn cminus cplus alts Hlt Ldist Ltop1 Ltopn a b Ha Hb Fa Fb).
+    apply (before_closer x p1 v1 a b R1); [now apply in1|now apply in1|assumption].
+  - (* red, blue *)
+    destruct Fb as (Fb & Nb). exact (right_of_red x p1 pn cminus cplus alts Hlt Ldist Ltop1 Ltopn b a Hb Ha Fb Nb Fa).
+  - (* blue, blue *)
+    destruct Fa as (Fa & _), Fb as (Fb & _).
+    assert (C : qdist p1 (x a) < qdist p1 (x b)) by (apply (before_closer x p1 v1 a b R1); [now apply in1|now apply in1|assumption]).
+    destruct (qdist_cases p1 (x a)) as [[? E1]|[? E1]], (qdist_cases p1 (x b)) as [[? E2]|[? E2]]; lra.
+  - (* green, red *)
+    destruct Fa as (Fa & Na). exact (left_of_red x p1 pn cminus cplus alts Hlt Ldist Ltop1 Ltopn a b Ha Hb Fa Na Fb).
+  - (* green, blue *) destruct Fa, Fb. lra.
+  - (* green, green *)
+    destruct Fa as (Fa & _), Fb as (Fb & _). apply negb_true_iff in H.
+    assert (C : qdist pn (x b) < qdist pn (x a)).
+    { apply (before_closer x pn vn b a Rn); [now apply inn|now apply inn|].
+      apply before_total; [now apply inn|now apply inn|assumption|assumption]. }
+    destruct (qdist_cases pn (x a)) as [[? E1]|[? E1]], (qdist_cases pn (x b)) as [[? E2]|[? E2]]; lra.
+Qed.
+End AxisOrder.
+End Link.
